@@ -132,6 +132,12 @@ func (srv *Server) handleChannel(ctx context.Context, c *ServerChannel) {
 		return
 	}
 
+	// EstablishSession also returns nil when it has answered the client with a
+	// failed session, so check if the session was really established.
+	if c.State() != SessionStateEstablished {
+		return
+	}
+
 	established := srv.config.Established
 	if established != nil {
 		established(c.sessionID, c)
